@@ -411,7 +411,7 @@ def dictlike_samples(draw, universe, strs=None):
     if draw(st.integers(0, 4)) == 0:
         # values that compare (and hash) equal across types
         leaf = st.sampled_from([1, 1.0, True, 0, 0.0, False, 2, 2.0])
-    pools = [["n_1", "n_2", "n_30"], ["a", "b"], ["1", "22", "333"], ["n_1", "m_2"], ["a", "c"], ["n_1x", "n_2"], ["N_1", "n_2"], ["A", "b"]]
+    pools = [["n_1", "n_2", "n_30"], ["a", "b"], ["1", "22", "333"], ["n_1", "m_2"], ["a", "c"], ["n_1x", "n_2"]]
     objs = []
     for _ in range(draw(st.integers(1, 3))):
         pk = draw(st.sampled_from(pools))
